@@ -6,13 +6,13 @@ use std::io::Write as _;
 use std::fmt::Write as _;
 
 // ---- recording sinks
-static MADE: [VAtomicUsize; 2] = [VAtomicUsize::new(0), VAtomicUsize::new(0)];          // make_writer()  (no metadata)
-static MADE_FOR: [VAtomicUsize; 2] = [VAtomicUsize::new(0), VAtomicUsize::new(0)];      // make_writer_for(meta)
-static META_SEEN: [VAtomicUsize; 2] = [VAtomicUsize::new(0), VAtomicUsize::new(0)];
-static WRITES: [VAtomicUsize; 2] = [VAtomicUsize::new(0), VAtomicUsize::new(0)];
-static LEN: [VAtomicUsize; 2] = [VAtomicUsize::new(0), VAtomicUsize::new(0)];
-static SUM: [VAtomicUsize; 2] = [VAtomicUsize::new(0), VAtomicUsize::new(0)];
-static FAIL: [VAtomicUsize; 2] = [VAtomicUsize::new(0), VAtomicUsize::new(0)];
+vstatic!(MADE: [VAtomicUsize; 2] = [VAtomicUsize::new(0), VAtomicUsize::new(0)]);          // make_writer()  (no metadata)
+vstatic!(MADE_FOR: [VAtomicUsize; 2] = [VAtomicUsize::new(0), VAtomicUsize::new(0)]);      // make_writer_for(meta)
+vstatic!(META_SEEN: [VAtomicUsize; 2] = [VAtomicUsize::new(0), VAtomicUsize::new(0)]);
+vstatic!(WRITES: [VAtomicUsize; 2] = [VAtomicUsize::new(0), VAtomicUsize::new(0)]);
+vstatic!(LEN: [VAtomicUsize; 2] = [VAtomicUsize::new(0), VAtomicUsize::new(0)]);
+vstatic!(SUM: [VAtomicUsize; 2] = [VAtomicUsize::new(0), VAtomicUsize::new(0)]);
+vstatic!(FAIL: [VAtomicUsize; 2] = [VAtomicUsize::new(0), VAtomicUsize::new(0)]);
 fn addr<T: ?Sized>(t: &T) -> usize { t as *const T as *const () as usize }
 struct Sink(usize);
 struct SinkW(usize);
